@@ -132,6 +132,36 @@ def selfref(r):
     return {"/main.sy": src}
 
 
+def nesting(r, lo=20, hi=120):
+    """deep but reasonable nesting (well below any stack limit): the compiler must answer within the watchdog limit
+    (the type checker used to double its work with every block level)"""
+    d = r.randint(lo, hi)
+    k = r.randrange(9)
+    pad = lambda i: "  " * (i + 1)
+    if k == 0:
+        body = "".join(pad(i) + "if true do\n" for i in range(d)) + pad(d) + "x := 1\n" + "".join(pad(d - 1 - i) + "end\n" for i in range(d))
+    elif k == 1:
+        body = "".join(pad(i) + "do\n" for i in range(d)) + pad(d) + "1\n" + "".join(pad(d - 1 - i) + "end\n" for i in range(d))
+    elif k == 2:
+        body = "".join(pad(i) + "loop false do\n" for i in range(d)) + pad(d) + "break\n" + "".join(pad(d - 1 - i) + "end\n" for i in range(d))
+    elif k == 3:
+        body = "  x := " + "(" * d + "1" + ")" * d + "\n"
+    elif k == 4:
+        body = "  x := " + " + ".join(["1"] * (d * 10)) + "\n"
+    elif k == 5:
+        body = "  x := " + "-" * d + "1\n"
+    elif k == 6:
+        body = "  x := " + "[" * d + "1" + "]" * d + "\n"
+    elif k == 7:
+        body = "  x := " + "".join("(1, " for _ in range(d)) + "2" + ")" * d + "\n"
+    else:
+        body = ("  x := " + "".join("if true do " for _ in range(d)) + "1" + "".join(" else 2 end" for _ in range(d)) + "\n")
+    idf = "idf :: fn v do v end\n"
+    if r.random() < 0.3:
+        body += "  y := " + "idf(" * min(d, 60) + "1" + ")" * min(d, 60) + "\n"
+    return {"/main.sy": idf + "start :: fn do\n" + body + "end\n"}
+
+
 def multi_file(r):
     """small projects with missing / conflicting / cyclic imports"""
     n = r.randint(2, 4)
@@ -238,8 +268,10 @@ def _stream(r, n, std_ratio=0.1):
             out.append(("soup", {"/main.sy": soup(r)}, flags))
         elif k < 0.72:
             out.append(("multi-error", multi_error(r), flags))
-        elif k < 0.75:
+        elif k < 0.74:
             out.append(("self-reference", selfref(r), flags))
+        elif k < 0.75:
+            out.append(("nesting", nesting(r), flags))
         elif k < 0.9:
             out.append(("multi-file", multi_file(r), flags))
         else:
